@@ -129,6 +129,9 @@ def gen_ast(rng, nstmt=None, ndata=5):
     vars_, img, _ = layout(data)
     n = nstmt if nstmt is not None else rng.randint(1, 24)
     labels = [rng.choice(["L%d", "loop_%d", "_x%dy", "Label%d", "end%d"]) % i for i in range(rng.randint(0, 4))]
+    if len(labels) >= 2 and rng.random() < 0.15:
+        # two labels that differ only in the case of their letters are two labels
+        labels[1] = labels[0].swapcase() if labels[0].swapcase() != labels[0] else labels[1]
     stmts = [gen_stmt(rng, vars_, labels) for _ in range(n)]
     pos = {l: rng.randint(0, n) for l in labels}
     return {"data": data, "stmts": stmts, "labels": pos}
@@ -286,7 +289,7 @@ class Renderer:
             else:
                 out.append("%s%s: .zero %d" % (ind, d["name"], d["n"]))
             if not self.plain and self.r.random() < 0.2:
-                out[-1] += "  # " + self.r.choice(["comment", "x1, 5", ".word 3", "la x1, q", "item #2", "# x #"])
+                out[-1] += "  # " + self.r.choice(["comment", "x1, 5", ".word 3", "la x1, q", "item #2", "# x #", 'say "hi"', 'a "'])
         return out
 
     def program(self, ast, data_first=None, text_directive=None):
@@ -305,7 +308,7 @@ class Renderer:
             if not self.plain and r.random() < 0.2:
                 lines.append(r.choice(["", "   ", "# comment", "  # c , x1", "\t", "#", "## c", "# a # b"]))
             ind = "" if self.plain else r.choice(["", "  ", "\t", "        "])
-            lines.append(ind + pre + self.stmt(s) + ("" if self.plain else r.choice(["", " # trailing", "  ", "\t#x", " # no. #3", " #a#b"])))
+            lines.append(ind + pre + self.stmt(s) + ("" if self.plain else r.choice(["", " # trailing", "  ", "\t#x", " # no. #3", " #a#b", ' # "quoted" text', " # it's", ' #"'])))
         for l in labels:
             if pos[l] == len(stmts):
                 lines.append(l + ":")
